@@ -172,6 +172,12 @@ class Merge(Expr):
             result.update(self.right.unique_partition_mapping_columns_from_shuffle)
             return result
 
+        if self.is_broadcast_join:
+            # A broadcast join doesn't shuffle the larger side: the output is
+            # partitioned like that side, not by the join keys
+            other = self.right if self.broadcast_side == "left" else self.left
+            return other.unique_partition_mapping_columns_from_shuffle.copy()
+
         return {
             tuple(self.left_on) if isinstance(self.left_on, list) else self.left_on,
             tuple(self.right_on) if isinstance(self.right_on, list) else self.right_on,
@@ -708,6 +714,8 @@ class BroadcastJoin(Merge, PartitionsFiltered):
         "indicator": False,
         "_partitions": None,
     }
+
+    is_broadcast_join = True
 
     def _divisions(self):
         if self.broadcast_side == "left":
